@@ -66,6 +66,7 @@ structure DState where
   mh   : MhState := {}
   nt   : DNotify.NtState := {}
   bl   : DBlock.BlState := {}
+  bs   : DBlock.StormState := {}     -- the free-running blocking storm (C18)
   sc   : List DSched.Call := []      -- the calls of the current window (C08)
   fr   : Array DFree.Call := #[]     -- the calls of the current free-running history (C08)
   frFinal : List String := []
@@ -606,7 +607,7 @@ def processLine (st : DState) (raw : String) : DState :=
   if line = "" then st
   else if line.startsWith "#" then
     if line.startsWith "# hist" then
-      { st with main := {}, bak := {}, hists := st.hists + 1, ackW := 0, autosync := false, crashArmed := false, bl := {}, blPre := none, dmg := none, sc := [], skip := false, fr := #[], frFinal := [] }
+      { st with main := {}, bak := {}, hists := st.hists + 1, ackW := 0, autosync := false, crashArmed := false, bl := {}, bs := {}, blPre := none, dmg := none, sc := [], skip := false, fr := #[], frFinal := [] }
     else st
   else if st.skip then st
   else
@@ -817,6 +818,35 @@ def processLine (st : DState) (raw : String) : DState :=
             { st with out := out, viols := st.viols + vs.length,
                       counts := bump st.counts ("dr.call:" ++ cls ++ ":" ++ (if implOk then "ok" else "err")) }
           | _ => { st with out := st.out.push s!"BADLINE {st.line} {line}" }
+        else
+        if op0.startsWith "bs." then
+          let implTxt := String.intercalate " " implToks
+          match opToks, implToks with
+          | "bs.open" :: _, ["ok", n] =>
+            { st with bs := { initial := n.toInt?.getD 0, total := n.toInt?.getD 0 }, counts := bump st.counts "bs.open" }
+          | ["bs.pub", m], ["ok", n] =>
+            (match parseMsg m with
+             | some msg =>
+               let nx := n.toInt?.getD 0
+               -- every publisher publishes one message: it gets the offset just below the NextOffset it is told
+               let vs := if msg.off + 1 == nx && !(st.bs.published.any (·.off == msg.off)) then [] else ["PublishRanges"]
+               let out := vs.foldl (fun o v => o.push s!"VIOL {st.line} {v} {lhs} impl={implTxt}") st.out
+               { st with bs := { st.bs with published := msg :: st.bs.published, total := if nx > st.bs.total then nx else st.bs.total },
+                         out := out, viols := st.viols + vs.length, counts := bump st.counts "bs.pub" }
+             | none => { st with out := st.out.push s!"BADLINE {st.line} {line}" })
+          | "bs.settled" :: _, "ok" :: toks => { st with bs := { st.bs with settled := toks }, counts := bump st.counts "bs.settled" }
+          | "bs.ret" :: i :: kind :: opts, _ =>
+            let vs := DBlock.judgeRet st.bs (i.toNat?.getD 0) kind (optInt opts "off" 0) (optInt opts "max" 0) (optBool opts "canc")
+                        (((opts.find? (·.startsWith "phase=")).map (fun t => (t.drop 6).toString)).getD "?") implToks
+            let out := vs.foldl (fun o v => o.push s!"VIOL {st.line} {v} {lhs} impl={implTxt.take 300} initial={st.bs.initial} total={st.bs.total} settled={st.bs.settled}") st.out
+            let cls := match implToks with | "ok" :: _ :: n :: _ => (if n == "0" then "ok-empty" else "ok") | "err" :: c :: _ => "err." ++ c | _ => "?"
+            { st with out := out, viols := st.viols + vs.length, counts := bump st.counts ("bs.ret:" ++ cls) }
+          | "bs.close" :: opts, _ =>
+            let vs := (if optBool opts "hung" then ["StuckAfterClose"] else []) ++ (if implToks == ["ok"] then [] else ["CloseFails"])
+            let out := vs.foldl (fun o v => o.push s!"VIOL {st.line} {v} {lhs} impl={implTxt}") st.out
+            { st with out := out, viols := st.viols + vs.length, counts := bump st.counts "bs.close" }
+          | _, _ =>
+            { st with viols := st.viols + 1, out := st.out.push s!"VIOL {st.line} SpuriousFailure {lhs} impl={implTxt}" }
         else
         if op0.startsWith "bl." then
           let implTxt := String.intercalate " " implToks
